@@ -10,7 +10,7 @@ Local Open Scope Z_scope.
 Definition sact_ok (a : sact) : bool := (0 <? s_tid a) && (s_tid a <? 1073741824).
 Definition qs_ok (qs : list (Z * list sact)) : bool := forallb (fun q => forallb sact_ok (snd q)) qs.
 
-Lemma try_act_step s a s' : sact_ok a = true -> try_act s a = Some s' -> exists act, step s act s'.
+Lemma try_act_step ids s a s' : sact_ok a = true -> try_act ids s a = Some s' -> exists act, step s act s'.
 Proof.
   unfold sact_ok. intros H T. apply andb_true_iff in H. destruct H as [H2 H3].
   apply Z.ltb_lt in H2, H3.
@@ -49,33 +49,33 @@ Proof.
   - apply andb_true_iff. split; [exact H1 | apply IH; exact H2].
 Qed.
 
-Lemma pick_step s qs : qs_ok qs = true -> forall w ord seen t s',
-  pick s qs ord seen w = Some (t, s') -> exists act, step s act s'.
+Lemma pick_step ids s qs : qs_ok qs = true -> forall w ord seen t s',
+  pick ids s qs ord seen w = Some (t, s') -> exists act, step s act s'.
 Proof.
   intros Q. induction w as [|w IH]; intros ord seen t s' P; destruct ord as [|u r]; cbn [pick] in P; try discriminate.
   destruct (existsb (Z.eqb u) seen); [eapply IH; exact P|].
   pose proof (lookup_ok u qs Q) as L.
   destruct (lookup u qs) as [|a l]; [eapply IH; exact P|].
   cbn [forallb] in L. apply andb_true_iff in L. destruct L as [La _].
-  destruct (try_act s a) as [s1|] eqn:T; [|eapply IH; exact P].
+  destruct (try_act ids s a) as [s1|] eqn:T; [|eapply IH; exact P].
   injection P as _ <-. eapply try_act_step; eassumption.
 Qed.
 
-Theorem sched_reach rb : forall fuel w s qs ord done,
-  qs_ok qs = true -> reach rb s -> reach rb (fst (fst (sched fuel w s qs ord done))).
+Theorem sched_reach rb : forall fuel w ids s qs ord done,
+  qs_ok qs = true -> reach rb s -> reach rb (fst (fst (sched fuel w ids s qs ord done))).
 Proof.
-  induction fuel as [|f IH]; intros w s qs ord done Q R; cbn [sched]; [exact R|].
+  induction fuel as [|f IH]; intros w ids s qs ord done Q R; cbn [sched]; [exact R|].
   destruct ord as [|u r]; [exact R|].
-  destruct (pick s qs (u :: r) [] w) as [[t s1]|] eqn:P; [|exact R].
+  destruct (pick ids s qs (u :: r) [] w) as [[t s1]|] eqn:P; [|exact R].
   apply IH; [apply pop_q_ok; exact Q|].
-  destruct (pick_step s qs Q _ _ _ _ _ P) as [act St].
+  destruct (pick_step ids s qs Q _ _ _ _ _ P) as [act St].
   eapply reach_step; [exact R | exact St].
 Qed.
 
-(* what the checker relies on: if the replay of a round consumed every action, the state whose dq_state / rootq / list /
-   started it reports is reachable in SLane *)
+(* what the checker relies on: the state whose dq_state / rootq / list / started the replay of a round reports is reachable
+   in SLane *)
 Corollary replay_reach rb w qs ord :
-  qs_ok qs = true -> reach rb (fst (fst (sched (S (length ord)) w (init_state rb) qs ord 0))).
+  qs_ok qs = true -> reach rb (fst (fst (sched (S (length ord)) w [] (init_state rb) qs ord 0))).
 Proof. intros Q. apply sched_reach; [exact Q | apply reach_init; reflexivity]. Qed.
 
 (* ---------------------------------------------------------------- a recorded round, replayed
